@@ -86,7 +86,7 @@ Definition is_min (key : bytes) (c : bytes) (among : list bytes) : bool :=
 Fixpoint zip {A B} (a : list A) (b : list B) : list (A * B) :=
   match a, b with x :: a', y :: b' => (x, y) :: zip a' b' | _, _ => [] end.
 
-Definition p20 (tag : sx) (key : bytes) (rule : sx) (answers : list answer) (obs : sx) : sx :=
+Definition p20 (tag : sx) (key : bytes) (rule : sx) (initial : list node) (answers : list answer) (obs : sx) : sx :=
   if is_sym "panic" obs then bad "panic" else
   let r := match rule with SN r => r | _ => 0 end in
   match obs with
@@ -94,7 +94,13 @@ Definition p20 (tag : sx) (key : bytes) (rule : sx) (answers : list answer) (obs
       let asked := ids_of_sx ids in
       let pairs := zip asked answers in
       let responders := map fst (filter (fun p => a_ok (snd p)) pairs) in
+      (* find-node: a peer learnt from an answer is contacted only if it passed validation *)
+      let learnt_invalid := flat_map (fun a => map n_id (filter (fun n => negb (node_rule r n)) (a_nodes a))) answers in
+      let learnt_valid := flat_map (fun a => map n_id (filter (node_rule r) (a_nodes a))) answers in
       if negb (nodup_ids asked) then bad "node-contacted-more-than-once"
+      else if is_sym "find" tag &&
+              existsb (fun x => mem_id x learnt_invalid && negb (mem_id x learnt_valid) && negb (mem_id x (map n_id initial))) asked
+      then bad "contacted-a-peer-that-failed-validation"
       else if is_sym "find" tag then
         match rest with
         | [SL [SB c; _]; SN contacted; _] =>
@@ -144,6 +150,6 @@ Definition run_C20 (case obs : sx) : sx :=
   match case with
   | SL [tag; SB key; rule; SL initial; SL answers] =>
       let ans := map answer_of_sx answers in
-      SL [model_obs tag key rule (nodes_of_sx initial) ans; p20 tag key rule ans obs]
+      SL [model_obs tag key rule (nodes_of_sx initial) ans; p20 tag key rule (nodes_of_sx initial) ans obs]
   | _ => bad_case
   end.
